@@ -32,6 +32,11 @@ def mk_eq(a, b):
     if a[0] == 'c' and b[0] == 'c': return C(a[1] == b[1])
     if a[0] == 'adt' and b[0] == 'adt' and not a[3] and not b[3] and a[1] == b[1]:
         return C(a[2] == b[2])
+    # Option / Result are compared structurally: different constructors are unequal, equal constructors compare their payload
+    if a[0] == 'adt' and b[0] == 'adt' and a[1] == b[1] and a[1] in ('std::option::Option', 'std::result::Result'):
+        if a[2] != b[2]: return FALSE
+        if len(a[3]) == 1 and len(b[3]) == 1: return mk_eq(a[3][0][1], b[3][0][1])
+        if not a[3] and not b[3]: return TRUE
     if repr(a) > repr(b): a, b = b, a
     return ('eq', a, b)
 
